@@ -64,6 +64,15 @@ class Run:
         except AnalysisError as err:
             self.errors.append("%s: %s" % (getattr(fn, "__name__", "rule"), err))
             return None
+        except (ValueError, IndexError, KeyError, TypeError, AttributeError) as err:
+            # the code has a shape the rule was not written for (a changed signature, a missing statement): the rule
+            # cannot decide -- an analysis error of this rule only, never a pass and never a crash of the whole check
+            import traceback
+
+            tb = traceback.extract_tb(err.__traceback__)
+            where = "%s:%d" % (tb[-1].filename.rsplit("/", 1)[-1], tb[-1].lineno) if tb else "?"
+            self.errors.append("%s: shape not recognised (%s: %s at %s)" % (getattr(fn, "__name__", "rule"), type(err).__name__, err, where))
+            return None
 
     # ------------------------------------------------------------------ recording
     def ok(self, rule, construct, detail="", loc=None, nontrivial=True):
